@@ -410,6 +410,11 @@ class Outcome(object):
     pass
 
 
+def rb_assets(cfg):
+    u = cfg["universe"]
+    return list(u["assets"]) if u["kind"] == "static" else sorted(u["entries"])
+
+
 _HEX = re.compile(r"[0-9a-f]{32}")
 
 
